@@ -4,7 +4,8 @@ transition system over the owning context's teardown stack.
 
 Set-up (before the block is left) is sequential: teardown callbacks and service tasks are
 registered in program order, each service task pushing its finalizer right after it has
-started. The labels are what user code can observe afterwards: a task body ending (by itself,
+started. A teardown callback may itself start a service task (`Setup.late`, label `lateStarted`):
+its finalizer lands on top of what is still to run. The labels are what user code can observe afterwards: a task body ending (by itself,
 after its stop signal, or after cancellation and clean-up), its own context having been
 closed, the owner's teardown callbacks running, a teardown-action callable being invoked,
 the `async with` block having been left, and the exception leaves the caller sees.
@@ -59,6 +60,8 @@ inductive TLab
   | blockLeft                                   -- `async with` of the owning context has been left
   | outcome (leaves : List Nat)                 -- exception leaves seen by the caller (empty: none)
   | taskSaw (tid : Nat) (vals : List Nat)       -- resources the task sees through its own context
+  | lateStarted (tid : Nat)                     -- start_service_task, called while the owner is being torn down
+                                                -- (from one of its teardown callbacks), has returned
   deriving DecidableEq, Repr
 
 structure TSt where
@@ -74,6 +77,7 @@ structure TSt where
   left : Bool
   reported : Bool
   hist : List TLab
+  lates : List (Nat × Nat)          -- (teardown callback, the service task it starts when it runs)
   deriving Repr
 
 /-- One step of the set-up program. -/
@@ -81,7 +85,15 @@ inductive Setup
   | reg (id : Nat) (raises : Option Nat)        -- add_teardown_callback / add_resource(teardown_callback=)
   | start (spec : TaskSpec)                     -- start_service_task
   | res (v : Nat)                               -- add_resource (without teardown callback) on the owner
+  | late (cb : Nat) (spec : TaskSpec)           -- teardown callback `cb` of the owner will start this service task
+                                                -- when it runs, i.e. while the owner is already being torn down
   deriving DecidableEq, Repr
+
+/-- The resources a set-up program adds to the owner. -/
+def resOf : List Setup → List Nat
+  | [] => []
+  | .res v :: rest => v :: resOf rest
+  | _ :: rest => resOf rest
 
 /-- The resources present in the owner when each task was started (its context's snapshot). -/
 def snapshots : List Setup → List Nat → List (Nat × List Nat)
@@ -89,16 +101,20 @@ def snapshots : List Setup → List Nat → List (Nat × List Nat)
   | .res v :: rest, seen => snapshots rest (seen ++ [v])
   | .start sp :: rest, seen => (sp.tid, seen) :: snapshots rest seen
   | .reg _ _ :: rest, seen => snapshots rest seen
+  | .late _ sp :: rest, seen => (sp.tid, seen ++ resOf rest) :: snapshots rest seen   -- started after the whole set-up
 
 def TSt.init (prog : List Setup) : TSt :=
   let stack := prog.foldl (fun st s => match s with
     | .reg id r => Item.cb id r :: st
     | .start sp => Item.fin sp.tid :: st
-    | .res _ => st) []
-  let specs := prog.filterMap fun s => match s with | .start sp => some sp | _ => none
-  { specs := specs, snaps := snapshots prog [], status := specs.map fun sp => (sp.tid, TStatus.running), stack := stack,
+    | .res _ => st
+    | .late _ _ => st) []
+  let specs := prog.filterMap fun s => match s with | .start sp => some sp | .late _ sp => some sp | _ => none
+  let started := prog.filterMap fun s => match s with | .start sp => some sp | _ => none
+  { specs := specs, snaps := snapshots prog [], status := started.map fun sp => (sp.tid, TStatus.running), stack := stack,
     exiting := false, waitingFor := none, acted := [], excs := [], crashed := [], left := false,
-    reported := false, hist := [] }
+    reported := false, hist := [],
+    lates := prog.filterMap fun s => match s with | .late cb sp => some (cb, sp.tid) | _ => none }
 
 def TSt.spec? (s : TSt) (tid : Nat) : Option TaskSpec := s.specs.find? (·.tid == tid)
 def TSt.statusOf (s : TSt) (tid : Nat) : Option TStatus := alookup tid s.status
@@ -182,7 +198,16 @@ def tstep? (s : TSt) (l : TLab) : Option TSt :=
     else if s.exiting && s.waitingFor.isNone then
       match s.stack with
       | .cb id' r :: rest =>
-        if id == id' then fin { s with stack := rest, excs := (match r with | some e => s.excs ++ [e] | none => s.excs) }
+        if id == id' then
+          let s1 := { s with stack := rest, excs := (match r with | some e => s.excs ++ [e] | none => s.excs) }
+          -- a callback that starts a service task: the task runs, and its finalizer is registered on top of
+          -- whatever is still to run, so nothing registered earlier runs before this task has finished
+          fin (match alookup id s.lates with
+            | some tid =>
+              (match s.statusOf tid with
+               | none => { (s1.setStatus tid .running) with stack := .fin tid :: rest }
+               | some _ => s1)
+            | none => s1)
         else none
       | _ => none
     else none
@@ -217,6 +242,9 @@ def tstep? (s : TSt) (l : TLab) : Option TSt :=
     if !s.crashed.isEmpty then fin { s with left := true }
     else if s.exiting && s.stack.isEmpty && s.waitingFor.isNone && !s.left then fin { s with left := true }
     else none
+  | .lateStarted tid =>
+    -- start_service_task, called by a teardown callback, has returned: that task was started by `cbRun`
+    if s.exiting && (s.statusOf tid).isSome && s.lates.any (fun p => p.2 == tid) then fin s else none
   | .taskSaw tid vals =>
     match alookup tid s.snaps with
     | some want => if vals == want then fin s else none
